@@ -128,3 +128,46 @@ def list_cwd_setup(mode, scratch, base, rel, contig_lists):
 	if mode == 'implicit':
 		return base, False
 	return None, True
+
+
+DIR_STYLES = {
+	# directory name of the database -> sibling directory names a careless pattern match / path handling could confuse it with
+	'brackets': ('refseq[12]', ['refseq1', 'refseq2']),
+	'star': ('db*', ['db', 'dbX', 'db-old']),
+	'question': ('rel?', ['rel1', 'relA']),
+	'range': ('v[0-9]', ['v1', 'v7']),
+	'space_hash': ('my db #2 (copy)', ['my', 'my db ']),
+	'percent': ('100%_done?x=1&y', ['100']),
+	'dots': ('..hidden.gdb', ['.hidden']),
+}
+
+
+def make_decoy_db(dirpath):
+	"""A complete, valid, but DIFFERENT database directory (one genome 'decoy/g', one signature)."""
+	import numpy as np
+	from sqlalchemy import create_engine
+	from sqlalchemy.orm import Session
+	from gambit.db.models import Base, ReferenceGenomeSet, Taxon, Genome, AnnotatedGenome
+	from gambit.kmers import KmerSpec
+	from gambit.sigs.base import SignatureArray, AnnotatedSignatures, SignaturesMeta, dump_signatures
+	os.makedirs(dirpath, exist_ok=True)
+	engine = create_engine(f'sqlite:///{os.path.join(dirpath, "decoy.gdb")}')
+	Base.metadata.create_all(engine)
+	with Session(engine) as s:
+		gset = ReferenceGenomeSet(key='decoy', version='0', name='decoy')
+		t = Taxon(key='decoy/t', name='Decoy', distance_threshold=1.0, report=True, genome_set=gset)
+		g = Genome(key='decoy/g', description='decoy genome', genbank_acc='DECOY1', refseq_acc='DECOY2', ncbi_db='assembly', ncbi_id=424242)
+		s.add_all([gset, t, AnnotatedGenome(genome=g, genome_set=gset, taxon=t, organism='decoy')])
+		s.commit()
+	engine.dispose()
+	dump_signatures(os.path.join(dirpath, 'decoy.gs'), AnnotatedSignatures(SignatureArray([np.array([1, 2, 3], dtype='u2')], KmerSpec(8, 'ATG')), ['decoy/g'], SignaturesMeta(id_attr='key')))
+
+
+def styled_db_dir(parent, style):
+	"""Directory for a database named in an awkward but legal way, next to decoy databases with similar names."""
+	name, siblings = DIR_STYLES[style]
+	for sib in siblings:
+		make_decoy_db(os.path.join(parent, sib))
+	d = os.path.join(parent, name)
+	os.makedirs(d)
+	return d
